@@ -173,6 +173,19 @@ func (h *httpSim) handle(w http.ResponseWriter, r *http.Request) {
 			w.Header().Set("content-type", "application/json")
 			w.Write([]byte(`{"httpStatus":"BAD_REQUEST","error_code":500012,"module_name":"policy","error_message":"The request was rejected."}`))
 			return
+		case "no_results":
+			// a well-formed document of the right type that lacks the list
+			w.Header().Set("content-type", "application/json")
+			w.Write([]byte(`{"result_count":2,"sort_by":"display_name","sort_ascending":true}`))
+			return
+		case "wrong_type":
+			w.Header().Set("content-type", "application/json")
+			w.Write([]byte(`["unexpected"]`))
+			return
+		case "results_wrong_type":
+			w.Header().Set("content-type", "application/json")
+			w.Write([]byte(`{"results":"none","result_count":0}`))
+			return
 		case "rej_4xx":
 			w.Header().Set("content-type", "application/json")
 			w.WriteHeader([]int{400, 401, 403, 404, 409, 412, 429, 502}[idx%8])
